@@ -39,6 +39,16 @@ def run_p(seed, tier, replay=None):
             for e in (st[2].split(";;") if st[2] else []):
                 if e.startswith("TestFinished(") and "[" + st[4] + "]" not in e:
                     violations.append({"what": f"TestFinished carries statistics different from the run's: {e} vs {st[4]}", "payload": {"request": q, "events": evs[:k + 1]}, "kind": "event-stats"})
+        # "the statistics that determine the exit status … agree with the per-test results": the final verdict (summarize_final)
+        # against the verdict read off the history alone
+        _, final = disp.split_steps(i)
+        if final is not None:
+            from props import C01
+            exp = C01.expected_final(q)
+            if final != exp:
+                violations.append({"what": f"the final verdict {final} (which decides the exit status) disagrees with the per-test results, which say {exp} (events {','.join(evs)}, {q.split(' ')[1]} selected)",
+                                   "payload": {"stream": o[:2], "line_index": o[2], "request": q, "impl_final": final, "spec_final": exp}, "kind": "final"})
+                continue
         d = disp.first_diff(q, i, m, ["stats"])
         if d:
             k, f, a, b, ev = d
